@@ -62,6 +62,8 @@ def main():
         except Exception:
             continue
         caught = (meta.get("verified") or {}).get("caught_by") or []
+        if str((meta.get("verified") or {}).get("superseded") or "").startswith("since fix"):
+            continue        # a later repair made this change harmless (recorded in its meta.json)
         for c in args.checks:
             if c.upper() in caught:
                 jobs.append((c.upper(), pid, name, d, args.seeds.split(",")))
